@@ -4,3 +4,16 @@ UNITS = [
        replace=["oggpack_read","vorbis_info_clear"], reach=4, leak=True,
        note="ID header: ranges, power-of-two block sizes, clear on reject, 177-bit layout"),
 ]
+UNITS += [
+  Unit("info_toupper", ["C16"], "lib/info.c", enforce="_v_toupper", reach=2,
+       note="ASCII-only case folding for all 2^32 int arguments"),
+  Unit("info_tagcompare", ["C16"], "lib/info.c", enforce="tagcompare", replace=["_v_toupper"], loops="info_tagcompare.loops", reach=2,
+       note="tagcompare(n arbitrary): any folded difference gives non-zero (ghost index)"),
+  Unit("info_tagcompare_conv", ["C16"], "lib/info.c", enforce="tagcompare", replace=["_v_toupper"], harness="h_info_tagcompare.c",
+       entry="h_info_tagcompare", defines=["VERIF_TAGCMP_BOUNDED"], unwind=6, kind="B", reach=2,
+       bound="converse direction (all equal => 0) expanded for n <= 4",
+       note="tagcompare converse"),
+  Unit("info_query", ["C16", "C13"], "lib/info.c", enforce=None, kind="B", unwind=6, leak=True, reach=2, timeout=900,
+       bound="<= 3 comments of <= 4 characters, tag <= 2 characters; all byte values symbolic",
+       note="query / query_count against an independent specification; fulltag freed; comment_clear releases everything, idempotent"),
+]
